@@ -14,8 +14,17 @@ deriving Repr, DecidableEq
 
 /-- `zix_thread_create(thread, stack_size, function, arg)`: the calls made, and the returned status
 given what `pthread_create` returned (0 or an error number). -/
+def pageUnit : Nat := 4096
+def W : Nat := 2 ^ 64
+
+/-- The size passed on: the request rounded up to whole pages in `size_t` arithmetic, or the request
+itself when rounding up wraps around. -/
+def attrSize (stackSize : Nat) : Nat :=
+  let rounded := ((stackSize + pageUnit - 1) % W) / pageUnit * pageUnit
+  if rounded ≥ stackSize then rounded else stackSize
+
 def threadCreate (stackSize : Nat) (createRet : Int) : List PCall × Int :=
-  ([.attrInit, .attrSetStackSize stackSize, .create (some stackSize), .attrDestroy], errnoStatus createRet)
+  ([.attrInit, .attrSetStackSize (attrSize stackSize), .create (some (attrSize stackSize)), .attrDestroy], errnoStatus createRet)
 
 /-- `zix_thread_join`: ERROR if `pthread_join` fails, else SUCCESS. -/
 def threadJoin (joinRet : Int) : Int := if joinRet ≠ 0 then 1 else 0
@@ -28,9 +37,10 @@ structure Th where
   done    : Bool
 deriving Repr
 
-/-- What the platform does for a `create` call that returns 0: one new thread whose stack is at
-least the attribute's stack size (the default size for a NULL attribute), running the function once. -/
+/-- What the platform does for a `create` call that returns 0: one new thread running the function
+once, on a stack of the attribute's size ROUNDED DOWN to whole pages (glibc does this to a size that
+is not a multiple of the page size; the default size for a NULL attribute). -/
 def platformCreate (defaultStack : Nat) (attrStack : Option Nat) (arg : Nat) : Th :=
-  { stack := attrStack.getD defaultStack, ran := 1, arg := arg, done := false }
+  { stack := (attrStack.getD defaultStack) / pageUnit * pageUnit, ran := 1, arg := arg, done := false }
 
 end Zix.Thread
